@@ -135,6 +135,7 @@ impl Check for C11 {
             short_read_pct: *r.pick(&[0u32, 30]),
             kill: None,
             sentinels: true,
+            io_fault: None,
         }
     }
     fn execute(&self, sc: &HubSc) -> RunReport {
@@ -373,6 +374,7 @@ impl Check for C12 {
                 short_read_pct: *r.pick(&[0u32, 40]),
                 kill: None,
                 sentinels: false,
+                io_fault: None,
             };
             return Sc12 { seed: r.next_u64(), mode: 1, stream_hex: String::new(), cut: None, valid_prefix: 0, session: Some(sess), pipe_cap: 65536, short_read_pct: 0 };
         }
@@ -601,6 +603,7 @@ impl Check for C12 {
             short_read_pct: sc.short_read_pct,
             kill: None,
             sentinels: false,
+            io_fault: None,
         };
         let run = run_hub(&sess, None);
         rep.execs = 1;
